@@ -39,10 +39,40 @@ def strip_spans(x):
     return x
 
 
+def name_fields(x, body, fieldnames):
+    """Field projections on a `Cli` value are identified by field *name*: the struct's layout depends on the
+    `history` feature (the field index of everything after `history` shifts), which is not a behavioural change."""
+    if isinstance(x, dict):
+        if 'l' in x and 'p' in x and isinstance(x['p'], list) and x['p']:
+            lty = body['locals'][x['l']]['ty'] if x['l'] < len(body['locals']) else {}
+            t = lty
+            while t.get('k') == 'ref':
+                t = t['to']
+            if t.get('k') == 'adt' and F.norm_path(t['path']) == 'cli::Cli':
+                p2 = []
+                seen_field = False
+                for e in x['p']:
+                    if e.get('k') == 'field' and not seen_field:
+                        seen_field = True
+                        e = dict(e)
+                        e['i'] = fieldnames.get(e['i'], e['i'])
+                    p2.append(e)
+                x = dict(x)
+                x['p'] = p2
+        return {k: name_fields(v, body, fieldnames) for k, v in x.items()}
+    if isinstance(x, list):
+        return [name_fields(v, body, fieldnames) for v in x]
+    return x
+
+
 def fn_hashes(lib):
     out = {}
+    cli = lib.adts_n.get('cli::Cli')
+    fieldnames = {i: f['name'] for i, f in enumerate(cli['variants'][0]['fields'])} if cli else {}
     for f in lib.lib_fns():
-        h = hashlib.sha1(json.dumps(strip_spans([f.body, f.promoted]), sort_keys=True).encode()).hexdigest()[:16]
+        body = name_fields(strip_spans(f.body), f.body, fieldnames)
+        # local declarations of type Cli differ textually only through the PhantomData field: types are kept as is
+        h = hashlib.sha1(json.dumps([body, strip_spans(f.promoted)], sort_keys=True).encode()).hexdigest()[:16]
         out[f.npath] = h
     return out
 
@@ -124,6 +154,21 @@ def run(ctx, res):
         'autocomplete': (['cli::Cli::process_autocomplete', 'editor::Editor::autocompletion'], ['cli::Cli::on_control_input']),
         'help': (['cli::Cli::process_help'], ['cli::Cli::process_input']),
     }
+    # Functions whose MIR may depend on a feature, confirmed by reading cli.rs (cfg attributes sit in exactly these bodies):
+    ALLOWED_CHANGED = {
+        'history': {'cli::Cli::on_control_input',        # Up/Down arms and the push in the Enter arm
+                    'cli::Cli::new', 'cli::Cli::from_builder',   # construct the History / PhantomData field
+                    '<cli::Cli as core::fmt::Debug>::fmt'},
+        'autocomplete': {'cli::Cli::on_control_input'},  # Tab arm
+        'help': {'cli::Cli::process_input'},             # the help decision
+    }
+    for f in F.FEATURES:
+        extra = single[f][1] - ALLOWED_CHANGED[f]
+        good = not extra
+        res.oblige("X|allowed-changed|%s" % f, good, violation=None if good else dict(
+            rule='C16.unexpected-dependence', key="C16|unexpected-dependence|%s|%s" % (f, ",".join(sorted(extra))[:80]),
+            msg="disabling only `%s` changes the code of %s, which is outside the places where that facility is wired in (%s)" % (
+                f, sorted(extra), sorted(ALLOWED_CHANGED[f]))))
     for f, (own, chg) in anchors.items():
         good = all(a in single[f][0] for a in own) and all(c in single[f][1] for c in chg)
         res.oblige("X|anchor|%s" % f, good, violation=None if good else dict(
@@ -163,7 +208,13 @@ def run(ctx, res):
             res.oblige("W|%s|%s" % (n, api), good, violation=None if good else dict(
                 rule='C16.behaviour', key="C16|behaviour|%s|%s" % (n, api),
                 msg="%s behaves differently in configuration %s than with all features" % (api, n)))
-        for key in sorted(fw):
+        for key in words[n]:
+            if key not in fw:
+                res.oblige("W|%s|%s" % (n, key), False, violation=dict(
+                    rule='C16.behaviour', key="C16|behaviour|%s|%s" % (n, key),
+                    msg="configuration %s (disabled: %s) has a path (%s) on which a byte is handled without reaching the key decoder: %s" % (
+                        n, D, key, [" ".join(w) + "/" + s_ for w, s_ in sorted(words[n][key])[:3]])))
+        for key in sorted(fw, key=str):
             got = words[n].get(key, set())
             exp = fw[key]
             if key in ('Up', 'Down') and 'history' in D:
